@@ -545,6 +545,59 @@ def prune_cases(ctx, cases=None):
                         oracle="after an edit, delivery follows exactly the edges the pipeline currently has")
 
 
+def class_built_cases(ctx, cases=None):
+    """Nodes built through the class, `Stream(upstreams=ups)`, twice from the SAME list (or tuple) object: each node has its own edges;
+    editing one node's edges (destroy / connect / disconnect) leaves the other's links and deliveries alone.  Judged by the edge sets."""
+    from streamz import Stream
+    if cases is None:
+        cases = [{"class_built": op, "share": share} for op in ("destroy-first", "destroy-second", "connect-first", "disconnect-first", "none")
+                 for share in ("list", "tuple")]
+    for case in cases:
+        a, b, c = Stream(), Stream(), Stream()
+        names = {id(a): "a", id(b): "b", id(c): "c"}
+        ups = [a, b] if case["share"] == "list" else (a, b)
+        n = [Stream(upstreams=ups), Stream(upstreams=ups)]
+        got = [n[0].sink_to_list(), n[1].sink_to_list()]
+        edges = [["a", "b"], ["a", "b"]]
+        problems = []
+        a.emit(1)
+        b.emit(2)
+        op = case["class_built"]
+        try:
+            if op == "destroy-first":
+                n[0].destroy()
+                edges[0] = []
+            elif op == "destroy-second":
+                n[1].destroy()
+                edges[1] = []
+            elif op == "connect-first":
+                c.connect(n[0])
+                edges[0] = ["a", "b", "c"]
+            elif op == "disconnect-first":
+                a.disconnect(n[0])
+                edges[0] = ["b"]
+        except Exception as e:      # noqa: BLE001
+            problems.append("the edit raised %s: %s" % (type(e).__name__, e))
+        for x, v in ((a, 3), (b, 4), (c, 5)):
+            x.emit(v)
+        want = [[1, 2] + [v for nm, v in (("a", 3), ("b", 4), ("c", 5)) if nm in edges[i]] for i in range(2)]
+        for i in range(2):
+            ups_i = [names.get(id(u), "?") for u in n[i].upstreams]
+            if ups_i != edges[i]:
+                problems.append("node %d lists upstreams %r, its edges are %r" % (i + 1, ups_i, edges[i]))
+            for x, nm in ((a, "a"), (b, "b"), (c, "c")):
+                if (n[i] in x.downstreams) != (nm in edges[i]):
+                    problems.append("stream %s %s node %d as a child, its edges are %r" % (nm, "lists" if n[i] in x.downstreams else "does not list", i + 1, edges[i]))
+            if got[i] != want[i]:
+                problems.append("node %d received %r, along its edges %r flow %r" % (i + 1, got[i], edges[i], want[i]))
+        ctx.case(case, nontrivial=True)
+        ctx.count("class-built:" + op)
+        if problems:
+            ctx.failure("links-wrong:class-built-nodes", "two nodes built as Stream(upstreams=ups) from one %s [a, b]; a.emit(1), b.emit(2), %s, a.emit(3), b.emit(4), c.emit(5): %s"
+                        % (case["share"], op, "; ".join(problems[:3])), case,
+                        oracle="links are mutually consistent and elements are delivered exactly along the edges that currently exist")
+
+
 def rewire_scenarios(thorough):
     """source -> A -> consumer with an awaitable: two elements, then A is detached from the source while it holds / delivers them,
     0-3 completions or ticks happen while it is detached, A is re-attached and two more elements follow."""
@@ -596,6 +649,7 @@ def run(ctx):
     ctx.audit()
     reentrant_sample(ctx, 40 if not ctx.thorough() else 800)
     prune_cases(ctx)
+    class_built_cases(ctx)
     n = 300 if not ctx.thorough() else 6000
     batch = []
     for c in CORPUS:
@@ -640,6 +694,10 @@ def replay(ctx, data):
     if case.get("reentrant"):
         reentrant_sample(ctx, 40)
         ctx.coverage["rule"] = "replay: re-entrant edit sample"
+        return
+    if case.get("class_built"):
+        class_built_cases(ctx, [case])
+        ctx.coverage["rule"] = "replay of one recorded case"
         return
     if case.get("prune"):
         prune_cases(ctx, [case])
